@@ -53,7 +53,7 @@ class NumberError(object):
             )
         else:
             val = self._value * other
-            err = self._error * other
+            err = self._error * np.abs(other)
         return NumberError(val, err)
 
     def __truediv__(self, other):
@@ -64,11 +64,11 @@ class NumberError(object):
                     (self._error) ** 2
                     + (self._value * other._error / other._value) ** 2
                 )
-                / other._value
+                / np.abs(other._value)
             )
         else:
             val = self._value / other
-            err = self._error / other
+            err = self._error / np.abs(other)
         return NumberError(val, err)
 
     def __pow__(self, other):
